@@ -40,6 +40,8 @@ EXTRA = {  # used by the random part only
     "chunk1": (["chunk 0 1"], True), "chunk2": (["chunk 0 2"], True), "chunk3": (["chunk 0 3"], True), "chunk4096": (["chunk 0 4096"], True),
     "chunkmax": (["chunk 0 18446744073709551615"], True), "setoffneg": (["setoff 0 -5"], False),
     "getters": (["getoff 0", "setoff 0 3", "sumoff 0"], False),  # asm_get_offset / asm_get_code are pure
+    "setoffcur": (["setoffcur 0"], False), "setoffprev": (["setoffprev 0"], False),  # asm_set_offset to the current offset (-1 after a failure) / to the start of the last call
+    "getbuf": (["asmold 0 %s" % common.hx("nop")], False),  # asm_create_bin_file and the deprecated entry point + asm_get_buffer in the middle of a history
     "errno34": (["errno 0 34"], False), "errno22": (["errno 0 22"], False), "asmover": (["asm 0 %s" % common.hx(P_OVER)], False),
 }
 FINALS = [("asm", P_OK), ("asm", P_OK2), ("cnt 8", P_OK2), ("asm", P_LONG), ("asm", P_BAD), ("cnt 3", P_OK), ("asm", P_SIB), ("asm", P_ONES)]
@@ -82,6 +84,8 @@ def run(tier):
     binary = common.build("asan")
     table = dict(ALPHA)
     table.update(EXTRA)
+    import os
+    table["bin"] = (["bin 0 %s" % os.path.join(common.workdir(), "c15-junk.bin")], False)  # asm_create_bin_file in the middle of a history (the file itself is not looked at here)
     syms = list(ALPHA)
     hists = [()]
     for L in (1, 2, 3):
